@@ -205,7 +205,7 @@ Fixpoint walk (fuel : nat) (b : list N) (h pos : N) : list (N * N) :=
 
 Definition extents (s : mrb) : list (N * N) :=
   walk (N.to_nat (size s / 4) + 2) (buf s) (head s) (tail s).
-Definition abs (s : mrb) : list msg :=
+Definition mrb_abs (s : mrb) : list msg :=
   map (fun e => slice (buf s) (fst e) (snd e)) (extents s).
 
 (* ---- the abstract FIFO: consistency of an observed run with a queue of messages ---- *)
